@@ -439,6 +439,18 @@ def discharge(ob, timeout_ms=10000, use_cvc5=False):
         return Verdict(ob, 'discharged', solver='z3', time_s=dt)
     if r == z3.sat:
         m = s.model()
+        # prefer a small counter-model (replayable): bound every integer constant
+        consts = [d() for d in m.decls() if d.arity() == 0 and d.range() == z3.IntSort()]
+        for B in (3, 6, 12, 40):
+            s.push()
+            s.set('timeout', 3000)
+            for cst in consts:
+                s.add(cst >= -B, cst <= B)
+            if s.check() == z3.sat:
+                m = s.model()
+                s.pop()
+                break
+            s.pop()
         model = {}
         for d in m.decls():
             if d.arity() == 0:
